@@ -54,3 +54,13 @@ Theorem C17_writer_sees_only_ticks : forall m p p' d k w w',
   write_video_sample (m_writer m) (F64.tick p') d k = inl w' -> w = w'.
 Proof. intros m p p' d k w w' H A B. rewrite H in A. rewrite A in B. inversion B. reflexivity. Qed.
 Print Assumptions C17_writer_sees_only_ticks.
+
+From Muxide Require Export Proofs.HistoryProofs.
+(* two timestamps with the same tick and the same accept/reject decision give the same writer *)
+Theorem C17_equal_ticks_equal_writer : forall m p p' d k,
+  F64.tick p = F64.tick p' ->
+  (forall e, snd (write_video m p d k) = Some e <-> snd (write_video m p' d k) = Some e) ->
+  snd (write_video m p d k) = None ->
+  m_writer (fst (write_video m p d k)) = m_writer (fst (write_video m p' d k)).
+Proof. exact equal_ticks_equal_writer. Qed.
+Print Assumptions C17_equal_ticks_equal_writer.
